@@ -24,7 +24,7 @@ LEVEL_TEXT = ("Theorems (Coq): number of uniforms consumed by every sampler as a
               "overload of Sample_Poisson is the history of single calls (C18_poisson_vector_is_history). Inverse_Transform_Sampling returns a point between xMin and xMax for every cdf and every generator "
               "state (C18_inverse_transform_in_range: Find_Root's clamp keeps every iterate in the bracket); Sample_Gauss is truncated at 10 sqrt(2) sigma (C18_sample_gauss_truncated). Values inside the support: a Metropolis chain (1D/2D, bounded/unbounded, every non-negative density) that is at a point of positive "
               "density never moves to a point of density zero, so with a start point inside the support every returned sample lies in the support (C18_metropolis_stays_in_support, _2d_; a start point of density "
-              "zero -- 0/0 and x/0 in IEEE arithmetic -- is NOT covered by a theorem, it is tested); detailed balance also on a bounded 2D domain (C18_acceptance_detailed_balance_2d_bounded). These history theorems are "
+              "zero -- 0/0 and x/0 in IEEE arithmetic -- is NOT covered by a theorem, it is tested); detailed balance also on a bounded 2D domain (C18_acceptance_detailed_balance_2d_bounded). The walls of a bounded Metropolis domain (C18_domain_test_has_no_tolerance, _2d, C18_domain_is_closed, _2d: for EVERY number type, so verbatim for doubles): the domain test is the plain comparison, a candidate that compares beyond a wall by any amount -- one unit in the last place -- has acceptance probability exactly 0 and a candidate on a wall or between the walls is judged by the density alone (over the reals: C18_no_tolerance_band for every eps > 0, C18_closed_domain_real); that the LIBRARY's test is this comparison is checked on chains whose domain walls are placed, by a generator-side simulation of the chain in the library's arithmetic, a relative 1e-16..1e-9 on either side of a proposal the chain really makes (1D/2D, all walls, domains at magnitudes 1e-6..1e6). These history theorems are "
               "about the model, in which no sampler has state of its own; that the LIBRARY has none (no static, no cache between calls) is checked, not proved: seqh cases compare every call of a history "
               "with a pristine process, with near-equal arguments in consecutive calls and decision values on a ladder 1e-16..1e-3 around the thresholds. NOT theorems: the distributional clauses (Kolmogorov-Smirnov, chi-square, moments) — they are "
               "tested on the implementation with fixed seeds at significance 1e-9 (S4); that std::mt19937/generate_canonical produce the stream handed to the model is "
@@ -330,6 +330,106 @@ def parse_seq(line, full=False):
 def imax32(sample, thin, burn): return (burn + (thin * sample) % 2 ** 32) % 2 ** 32
 
 
+# ------------------------------------------------------------------ generator-side simulation of a Metropolis chain (used only to AIM cases)
+def lib_inv_erf(p):
+    """Inv_Erf of the library in the arithmetic of the library (Ridder's method on libm's erf, accuracy 1e-4, as in /repo): the proposals of a
+    chain are mean + sqrt(2) sigma Inv_Erf(2u-1), and a domain wall can only be put 1e-16..1e-9 next to one if the value is followed exactly.
+    None where the library terminates.  A deviation from the library only makes a case miss its aim (the final simulation does not confirm it)."""
+    if abs(p - 1.0) < 1e-16: return 10.0
+    if abs(p + 1.0) < 1e-16: return -10.0
+    if not abs(p) < 1.0: return None
+    def sg(x): return 1 if x > 0 else (0 if x == 0 else -1)
+    def sg2(x, y): return x if sg(x) == sg(y) else -1.0 * x
+    f = lambda x: math.erf(x) - p
+    x1, x2 = -10.0, 10.0; f1, f2 = f(x1), f(x2)
+    if sg(f1) * sg(f2) >= 0: return x1 if f1 == 0 else (x2 if f2 == 0 else None)
+    res = None
+    for _ in range(2200):
+        x3 = 0.5 * x1 + 0.5 * x2; f3 = f(x3)
+        sc = max(abs(f3), max(abs(f1), abs(f2)))
+        g1 = f1 / sc; g2 = f2 / sc; g3 = f3 / sc
+        rad = g3 * g3 - g1 * g2
+        x4 = x3 + (x3 - x1) * sg(g1 - g2) * g3 / math.sqrt(rad) if rad > 0 else x3
+        if x4 != x4: x4 = x3
+        x4 = max(min(x1, x2), min(max(x1, x2), x4))
+        res = x4; f4 = f(x4)
+        if f4 == 0.0: return res
+        if sg2(f3, f4) != f3: x1, f1, x2, f2 = x3, f3, x4, f4
+        elif sg2(f1, f4) != f1: x2, f2 = x4, f4
+        elif sg2(f2, f4) != f2: x1, f1 = x4, f4
+        else: return None
+        if abs(x2 - x1) < 1.0e-4: return res
+    return res
+
+
+def sim_metro(dim, us, k0, sigmas, im, dom, e):
+    """The chain of Sample_Metropolis(_2D) on a bounded domain from the uniforms us[k0:], step by step: list of
+    (current point, candidate, candidate outside of the domain?, min(1, pdf ratio) regardless of the domain, accept deviate, moved?); None if it cannot be followed."""
+    def pdf(p): return feval(e, p[0], p[1]) if dim == 2 else feval(e, p[0])
+    def ratio(a, b):
+        if b == 0.0: return math.nan if (a == 0.0 or a != a) else math.copysign(math.inf, a) * math.copysign(1.0, b)
+        return a / b
+    k = k0
+    if k + dim + (dim + 1) * im > len(us): return None
+    x = tuple(us[k + c] * (dom[2 * c + 1] - dom[2 * c]) + dom[2 * c] for c in range(dim)); k += dim
+    steps = []
+    for _i in range(im):
+        cand = []
+        for c in range(dim):
+            z = lib_inv_erf(2.0 * us[k + c] - 1.0)
+            if z is None: return None
+            cand.append(x[c] + SQ2 * sigmas[c] * z)
+        cand = tuple(cand); u = us[k + dim]; k += dim + 1
+        outside = any(cand[c] < dom[2 * c] or cand[c] > dom[2 * c + 1] for c in range(dim))
+        r = ratio(pdf(cand), pdf(x)); a = r if r < 1.0 else 1.0
+        moved = (not outside) and u < a
+        steps.append((x, cand, outside, a, u, moved))
+        if moved: x = cand
+    return steps
+
+
+def aim_wall(rng, dim, us, sigmas, im, dom, e, retained):
+    """Moves ONE wall of the domain next to a proposal the chain really makes on the uniforms us: a relative distance of the ladder 1e-16..1e-9 (at least
+    an ulp) beyond the proposal (the proposal is then outside by that much and has to be refused) or before it (inside: it has to be judged by the density alone).
+    The start point is drawn in the domain and so moves with the wall: Newton steps on the simulated chain, then a final simulation that has to confirm the aim.
+    The proposal is one that would be taken if it were inside (accept deviate below min(1, pdf ratio)) at a retained iteration.  Returns (domain, tag) or None."""
+    st = sim_metro(dim, us, 0, sigmas, im, dom, e)
+    if not st: return None
+    c = rng.randrange(dim); upper = rng.random() < 0.5; w = 2 * c + (1 if upper else 0); other = dom[2 * c + (0 if upper else 1)]
+    # a proposal that is taken and sets a record of the chain in this direction: no earlier state lies beyond the new wall
+    ext = st[0][0][c]; cands = []
+    for j, (x, cd, outside, a, u, moved) in enumerate(st):
+        if moved and cd[c] != 0.0 and (cd[c] > ext if upper else cd[c] < ext):
+            ext = cd[c]
+            if retained(j): cands.append(j)
+    if not cands: return None
+    j = rng.choice(cands); out = rng.random() < 0.7; d = rng.choice([1e-16, 1e-15, 1e-14, 1e-13, 1e-12, 1e-11, 3e-11, 1e-10, 1e-9])
+    m = us[c] if upper else 1.0 - us[c]                    # d(start point)/d(wall): the whole chain shifts with it
+    if abs(1.0 - m) < 0.05: return None
+    def target(cv):
+        sgn = -1.0 if (upper == out) else 1.0            # wall below the proposal: upper wall & outside, lower wall & inside
+        t = cv + sgn * abs(cv) * d
+        if t == cv or abs(t - cv) < d * abs(cv) * 0.5: t = math.nextafter(cv, sgn * math.inf)
+        return t
+    dm = list(dom)
+    for it in range(12):
+        stt = sim_metro(dim, us, 0, sigmas, im, dm, e)
+        if not stt: return None
+        cv = stt[j][1][c]; wv = dm[w]
+        rel = (cv - wv) / abs(wv) if wv != 0 else math.inf
+        beyond = rel > 0 if upper else rel < 0
+        loose = wv != cv and beyond == out and abs(rel) <= 1.5e-9 and (other < wv if upper else wv < other)
+        if loose and (abs(rel) <= max(4.0 * d, 4.5e-16) or it >= 8):
+            x, cd, outside, a, u, moved = stt[j]
+            others_in = all(dm[2 * q] <= cd[q] <= dm[2 * q + 1] for q in range(dim) if q != c)
+            if others_in and u < a and outside == out: return dm, ("wall-outside" if out else "wall-inside")
+            return None
+        res = wv - target(cv)
+        dm[w] = wv - res / (1.0 - m) if it < 8 and abs(res) > 4e-16 * abs(wv) else target(cv)
+        if not (dm[2 * c] < dm[2 * c + 1]): return None
+    return None
+
+
 def generate(rng, tier):
     cs = []
     big = tier != "quick"
@@ -398,11 +498,11 @@ def generate(rng, tier):
                ("rej", op_rej), ("rej2", op_rej2), ("metro", op_metro), ("metro2", op_metro2)]
     # A. one sampler call per generator state
     for name, f in singles:
-        for _ in range(R(120, 1500) if name != "poisson" else R(60, 600)):
+        for _ in range(R(120, 1350) if name != "poisson" else R(60, 540)):
             o, n = (f(300.0) if (name == "poisson" and rng.random() < 0.7) else f())
             cs.append(seq_case(seed(), [o], n + rng.choice([0, 1, 3]), (name, "single")))
     # B. interleavings of different samplers on one generator
-    for _ in range(R(400, 6000)):
+    for _ in range(R(400, 5400)):
         K = rng.randint(2, 6); ops = []; n = 0
         for _k in range(K):
             name, f = rng.choice(singles)
@@ -487,7 +587,7 @@ def generate(rng, tier):
             for _ in range(dim): out += prop()
             out += acc()
         return out
-    for _ in range(R(260, 4000)):
+    for _ in range(R(250, 3500)):
         d2 = rng.random() < 0.5
         s, th, b = ztriple(); im = imax32(s, th, b)
         if d2:
@@ -500,6 +600,38 @@ def generate(rng, tier):
             cs.append(seq_case(seed(), [o], need + 2, (o.split()[0], "zero-density", "random-state")))
         else:
             cs.append(seq_case(rng.randrange(2 ** 32), [o], need + 2, (o.split()[0], "zero-density", "crafted-stream"), state_raws=craft(2 if d2 else 1, im, rng.choice([0.2, 0.5, 1.0]))))
+    # H2. DOMAIN WALLS NEXT TO A PROPOSAL OF THE CHAIN.  For a generic wall a proposal lands within a relative 1e-10 of it with probability ~1e-10 |wall| / sigma
+    #    per step, so random domains never decide `candidate < domain[0] || candidate > domain[1]` near equality.  Here the chain is simulated on the generator
+    #    state of the case (sim_metro follows the library's arithmetic) and one wall -- lower / upper, x / y -- is moved to a relative distance 1e-16..1e-9 of a
+    #    proposal the chain really makes, on either side, at a retained iteration, the proposal being one that is taken when it counts as inside; domains at
+    #    magnitudes 1e-6..1e6, both signs, densities positive beyond the walls, random generator states and start deviates 0 / 1-2^-53 (start ON a wall).
+    def wall_box(): return rng.choice([(0.0, 1.0), (-2.0, 2.5), (10.0, 13.0), (-1e3, -999.0), (1e-3, 5e-3), (1e5, 3e5), (-2e-6, -1e-6), (3.0, 40.0), (-7.0, -0.5)])
+    def wall_dens1(a, b):
+        w = b - a; t = "/ - x " + C(a) + " " + C(w)
+        return rng.choice([C(1.0), C(1.0), "exp neg " + t, "exp neg * " + C(3) + " " + t, "exp " + t, "+ " + C(0.25) + " * " + t + " " + t, "exp neg * " + t + " " + t])
+    def wall_dens2(a, b, c, d):
+        tx = "/ - x " + C(a) + " " + C(b - a); ty = "/ - y " + C(c) + " " + C(d - c)
+        return rng.choice([C(1.0), C(1.0), "exp neg + " + tx + " * " + C(2) + " " + ty, "exp - " + tx + " " + ty, "+ " + C(0.5) + " * " + tx + " " + tx, "exp neg + * " + tx + " " + tx + " * " + ty + " " + ty])
+    n_aimed = 0
+    for _ in range(R(150, 420)):
+        d2 = rng.random() < 0.4; dim = 2 if d2 else 1
+        if rng.random() < 0.75: s, th, b = rng.choice([3, 5, 8, 12, 20, rng.randint(2, 30)]), 1, 0           # the whole chain is returned
+        else: s, th, b = rng.randint(2, 10), rng.randint(1, 3), rng.randint(0, 4)
+        im = imax32(s, th, b)
+        a1, b1 = wall_box(); a2, b2 = wall_box()
+        dom = [a1, b1, a2, b2] if d2 else [a1, b1]
+        sig = [(dom[2 * q + 1] - dom[2 * q]) * rng.choice([0.05, 0.15, 0.4, 1.0]) for q in range(dim)]
+        fx = wall_dens2(a1, b1, a2, b2) if d2 else wall_dens1(a1, b1)
+        sd = rng.randrange(2 ** 32); raws = None
+        if rng.random() < 0.35: raws = [w_ for _q in range(dim) for w_ in rng.choice([(0, 0), (M, M), raws_for(0.5), raws_for(rng.random())])]
+        need = dim + (dim + 1) * im
+        g = MT(sd, [untemper(r_) for r_ in raws] if raws else None); us_ = [g.canon() for _q in range(need)]
+        tag = "wall-unaimed"
+        for _try in range(4):
+            r = aim_wall(rng, dim, us_, sig, im, dom, fparse(fx.split(), 0)[0], lambda j: j >= b and j % th == 0)
+            if r: dom, tag = r; n_aimed += 1; break
+        o = (f"metro2 {hx(sig[0])} {hx(sig[1])} {s} {th} {b} {flist(dom)} {fx}" if d2 else f"metro {hx(sig[0])} {s} {th} {b} {flist(dom)} {fx}")
+        cs.append(seq_case(sd, [o], need + 2, (o.split()[0], "wall-at-proposal", tag), state_raws=raws))
     # the same boundary deviates (exactly 0.0, 2^-64, 1-2^-53) at EVERY position of the stream, for every sampler (rejection: y = 0 on a point of zero density)
     def rej_eff(fx, dom, top):
         e, _ = fparse(fx.split(), 0); d2 = len(dom) == 4; acc = 0.0
@@ -639,7 +771,7 @@ def generate(rng, tier):
             o = f"invt {hx(a)} {hx(b)} + {fx} * {C(1e-9)} tanh z"; nev = 200; own = 1
         txt = f"nest {'same' if same else 'other'} {red} {io} {o}"
         return txt, ((own + nev * ip, nev * iq) if same else (own + nev * iq, nev * ip))
-    for _ in range(R(260, 2500)):
+    for _ in range(R(240, 2450)):
         K = rng.choice([1, 1, 2, 2, 3]); ops = []; nm = na = 0
         for j in range(K):
             r = rng.random()
@@ -758,7 +890,7 @@ def generate(rng, tier):
         for l in L: cs.append(Case(l, ("law", l.split()[1])))
     # targets whose density is exactly 0.0 where the chain starts (support inside the domain; narrow peak with underflowing tails): the chain has to
     # walk through the zero-density region to the support.  Short chains, several fixed seeds (the start point decides whether the region is hit).
-    for sd in ([101, 102, 103, 104, 105, 106] if not big else list(range(101, 125))):
+    for sd in ([101, 102, 103, 104, 105, 106] if not big else list(range(101, 121))):
         L = []
         n2 = 1000 if not big else 3000
         L.append(f"law metro farpeak {sd} {n2} {hx(0.5)} 20 20000 {flist(list(T1['farpeak'][2]))} {T1['farpeak'][0]}")
